@@ -262,7 +262,8 @@ type runner struct {
 	n, u        int
 	wcap        int64
 	capOverflow bool
-	route       []int // shard of key k (k < u)
+	recency     map[int][]int // per shard: keys from most to least recently used, as the calls so far imply
+	route       []int         // shard of key k (k < u)
 	shardCap    int64
 	present     map[int]item // key -> entry as of the last Peek listing
 }
@@ -745,6 +746,7 @@ func (r *runner) wnew(f []string) string {
 		r.shardCap++
 	}
 	r.present = map[int]item{}
+	r.recency = map[int][]int{}
 	opt := remap.WithPrime(uint64(n))
 	switch {
 	case r.tiny && xhash:
@@ -888,6 +890,43 @@ func (r *runner) wideMonitor(op string, args []int64, now map[int]item, res stri
 	if total > r.shardCap {
 		r.hit(key("shard-exceeds-capacity"), ctx)
 	}
+	// recency inside the shard, maintained from the calls alone: Set/Get refresh, Peek/Exist do not
+	var order []int
+	for _, q := range r.recency[sh] {
+		if q != k {
+			order = append(order, q)
+		}
+	}
+	if op == "set" && lost > 0 {
+		// the entries that disappeared must be the least recently used ones of the shard
+		for i, q := range order {
+			_, still := now[q]
+			if !still && i < len(order)-lost {
+				r.hit("C04:"+pkg+":shard:evicts-not-least-recent", fmt.Sprintf("key %d was evicted although the shard's order of use (most recent first, without the key being set) is %v; %s", q, order, ctx))
+				break
+			}
+		}
+	}
+	var kept []int
+	for _, q := range order {
+		if _, still := now[q]; still {
+			kept = append(kept, q)
+		}
+	}
+	_, kNow := now[k]
+	switch {
+	case (op == "set" || op == "get") && kNow:
+		kept = append([]int{k}, kept...)
+	case kNow:
+		// Peek / Exist: k keeps its place
+		kept = nil
+		for _, q := range r.recency[sh] {
+			if _, still := now[q]; still {
+				kept = append(kept, q)
+			}
+		}
+	}
+	r.recency[sh] = kept
 	switch op {
 	case "set":
 		sz := args[2]
